@@ -13,7 +13,7 @@ import (
 func init() {
 	register("C19",
 		"nothing of note beyond AX-YEAR (years outside 0..9999 print wider) and the ranges of month/day/hour/minute/second, which R07.2 establishes at the only allocation site of Solar; a re-implementation of ToYmd/ToYmdHms that is not a single Sprintf is reported as undecided (fails) even if it is correct.",
-		r19_1, r19_2, r19_3)
+		r19_1, r19_2, r19_3, r19_4)
 }
 
 func r19_1(c *Ctx, r *Report) {
@@ -226,4 +226,11 @@ func r19_3(c *Ctx, r *Report) {
 		}
 		return false
 	})
+}
+
+func r19_4(c *Ctx, r *Report) {
+	tableIndexRule(c, r, "R19.4", func(fn *ssa.Function) bool {
+		n := fn.Name()
+		return strings.Contains(n, "InChinese") || strings.Contains(n, "MonthName") || strings.HasSuffix(n, "String")
+	}, 8)
 }
